@@ -20,6 +20,9 @@ Inductive case :=
 | KShape (d : desc) (fuel : nat) (outputs_closed no_goroutine_left : bool) (output_lengths : list nat)
 | KFlow (c : FlowRun.case).
 
+(* the readers of the outputs are the last nodes of a description; readers before them are the pipeline's own helper.Drain calls *)
+Definition lastn {A} (n : nat) (l : list A) : list A := skipn (List.length l - n) l.
+
 Definition lists_eqb (a b : list (list nat)) : bool := list_eqb (list_eqb Nat.eqb) a b.
 
 Definition check03 (c : case) : nat :=
@@ -35,7 +38,7 @@ Definition check03 (c : case) : nat :=
       else let t := run fuel (build d) in
            if negb (terminalb t) then 16
            else if Bool.eqb (sinks_done d t) fin && Bool.eqb (no_leak t) clean
-                   && (if fin then list_eqb Nat.eqb (map (@List.length nat) (received d t)) lens else true) then 0 else 16
+                   && (if fin then list_eqb Nat.eqb (lastn (List.length lens) (map (@List.length nat) (received d t))) lens else true) then 0 else 16
   | KFlow c' =>
       let r := ValRun.check c' in
       (* signature for the known findings: the run that did not finish had input channels of different lengths *)
